@@ -85,7 +85,12 @@ def exp(x):
     xa = asarray(x)
     if xa.ndim == 0:
         _note_exp(_to_real(xa.get(())))
-    return elementwise((x,), lambda e: _EXP(_to_real(e)), "float")
+    else:
+        cur().memo.setdefault("exp-array-args", []).append(xa)  # ghost: arguments of elementwise exp
+    out = elementwise((x,), lambda e: _EXP(_to_real(e)), "float")
+    if isinstance(out, SymArray):
+        out.positive = True  # exp > 0 (Real.exp_pos)
+    return out
 
 
 def log(x):
